@@ -67,6 +67,79 @@ def lock_probe():
         shutil.rmtree(tmp, ignore_errors=True)
 
 
+def write_window_probe(binary=False):
+    """Two threads save content under the SAME file name at the same time: thread A is paused by sys.settrace inside
+    _save_attachment_content while its file is open (content written or about to be), thread B saves its own content
+    completely, then A goes on.  Each attachment the report references must exist and hold what ITS emitter wrote.
+    Returns (ok, detail)."""
+    import lemoncheesecake.session as lcc_session
+    from lemoncheesecake.session import Session, _Cursor
+    from lemoncheesecake.events import SyncEventManager
+    from lemoncheesecake.reporting import Report, ReportLocation
+    tmp = tempfile.mkdtemp(prefix="lccverif_write_")
+    try:
+        em = SyncEventManager.load()
+        recorded = []
+        em.subscribe_to_event("log_attachment", lambda e: recorded.append((e.attachment_description, e.attachment_path)))
+        session = Session(em, tmp, Report())
+        Session._instance = session
+        inside, release, errors = threading.Event(), threading.Event(), {}
+        content = {"A": ("A" * 4000), "B": ("B" * 3000)}
+        if binary:
+            content = {k: v.encode() for k, v in content.items()}
+
+        def tracer(frame, event, arg):
+            if frame.f_code.co_name == "_save_attachment_content":
+                def local(frame, event, arg):
+                    # the line after `with open(...) as fh:` has been reached: the file is open
+                    if event == "line" and "fh" in frame.f_locals and not inside.is_set():
+                        inside.set()
+                        release.wait(10)
+                    return local
+                return local
+            return None
+
+        def worker(name, traced):
+            session.cursor = _Cursor(ReportLocation.in_test_session_setup())
+            session.set_step("step of %s" % name)
+            if traced:
+                sys.settrace(tracer)
+            try:
+                lcc_session.save_attachment_content(content[name], "response.json", "by %s" % name)
+            except BaseException as e:      # noqa: BLE001
+                errors[name] = "%s: %s" % (type(e).__name__, e)
+            finally:
+                sys.settrace(None)
+        a = threading.Thread(target=worker, args=("A", True))
+        a.start()
+        if not inside.wait(10):
+            release.set()
+            a.join(10)
+            return None, "thread A never reached the open file (source shape changed?) %s" % errors
+        b = threading.Thread(target=worker, args=("B", False))
+        b.start()
+        b.join(10)
+        release.set()
+        a.join(10)
+        if errors:
+            return False, "saving an attachment raised while another thread saved one of the same name: %s" % errors
+        if len(recorded) != 2:
+            return False, "%d attachments recorded instead of 2: %s" % (len(recorded), recorded)
+        for desc, rel in recorded:
+            who = desc[-1]
+            path = os.path.join(tmp, rel)
+            if not os.path.exists(path):
+                return False, "the attachment %s of thread %s does not exist on disk" % (rel, who)
+            data = open(path, "rb" if binary else "r").read()
+            if data != content[who]:
+                return False, "the attachment %s of thread %s does not hold what it wrote (%d bytes, begins with %r)" % (
+                    rel, who, len(data), data[:3])
+        return True, recorded
+    finally:
+        Session._instance = None
+        shutil.rmtree(tmp, ignore_errors=True)
+
+
 LATE_SUITE = """import threading
 import lemoncheesecake.api as lcc
 
@@ -152,6 +225,14 @@ def check(run):
         run.count("lock_probes")
         if not ok:
             run.violation("attachment-lock-not-exclusive", str(detail), {"probe": "lock_probe", "detail": str(detail)})
+    for binary in (False, True):
+        ok, detail = write_window_probe(binary)
+        run.evaluations += 1
+        run.count("write_window_probes")
+        if ok is None:
+            run.tie_broken("the write-window probe reaches the open file inside _save_attachment_content", detail=str(detail))
+        elif not ok:
+            run.violation("attachment-content-mixed-up", str(detail), {"probe": "write_window_probe", "binary": binary, "detail": str(detail)})
     # lcc.Thread objects that their test does not join: the thread begins to run (and logs) only when the NEXT test has begun on
     # the same worker; what it emits still belongs to the test that started it
     for k, (nthreads, with_step, other_suite) in enumerate([(1, False, False), (1, True, False), (1, True, True), (2, True, False)]):
